@@ -54,6 +54,7 @@ QUICK = [
     ("Q4", "FamQ(4)"),      # every family at four glyphs
 ]
 THOROUGH = [
+    ("S", "FamS(4) \\cup FamS(5)"),
     ("T4", "FamT(4, 4, 0)"),
     ("T5", "FamT(5, 3, 1)"),
     ("L4", 'FamL(4, {"ttf", "cff"}, {1, 2, 3, 4})'),
@@ -107,8 +108,10 @@ def _random_font(rng):
          "cid": [(-1 if kind != "cid" else (0 if i == 0 else 2 * i + 3)) for i in g],
          "fd": [(-1 if kind == "ttf" else (rng.randint(0, 2) if kind == "cid" else 0)) for i in g],
          "comp": [[] for _ in g], "cmapcfg": "4", "cmap": [], "hasenc": False, "enc": [],
-         "gsub": "none", "ligs": [], "subs": [], "gpos": False, "pairs": []}
+         "gsub": "none", "ligs": [], "ligsplit": 0, "subs": [], "subs2": [],
+         "gpos": False, "pairs": [], "pairs2": []}
     rng.shuffle(F["w"])
+    lo = rng.choice([0, 1, 1])     # lo = 0: .notdef takes part in rules (coverage tables that start at glyph 0)
     if kind == "ttf":
         order = g[:]
         rng.shuffle(order)           # components only refer to glyphs later in a random order: acyclic
@@ -139,23 +142,48 @@ def _random_font(rng):
         if "l" in order:
             rules = []
             for _ in range(rng.randint(1, 4)):
-                r = [rng.randint(1, n - 1) for _ in range(rng.randint(2, 4))]
+                r = [rng.randint(lo, n - 1) for _ in range(rng.randint(2, 4))]
                 if r not in rules:
                     rules.append(r)
+            if rng.random() < 0.3:     # every glyph starts a ligature: long runs in the coverage
+                rules += [[a, a, a] for a in range(lo, n) if [a, a, a] not in rules]
             F["ligs"] = rules
+            F["ligsplit"] = rng.randint(0, len(rules))      # two subtables
         if "s" in order:
             delta = rng.choice([d for d in range(-(n - 2), n - 1) if d != 0])
             cand = [a for a in range(1, n) if 1 <= a + delta <= n - 1]
             cov = sorted(rng.sample(cand, rng.randint(1, min(3, len(cand)))))
             F["subs"] = [[a, a + delta] for a in cov]
+            if rng.random() < 0.3:
+                F["subs"] = [[a, a] for a in range(lo, n)]      # delta 0, every glyph covered
+            if rng.random() < 0.5:     # a second subtable that overlaps the first
+                d2 = rng.choice([d for d in range(-(n - 2), n - 1)])
+                cand2 = [a for a in range(lo, n) if 1 <= a + d2 <= n - 1]
+                if cand2:
+                    F["subs2"] = [[a, a + d2] for a in sorted(rng.sample(cand2, rng.randint(1, min(4, len(cand2)))))]
     if rng.random() < 0.6:
         F["gpos"] = True
         seen = set()
         for _ in range(rng.randint(0, 6)):
-            a, b = rng.randint(1, n - 1), rng.randint(1, n - 1)
+            a, b = rng.randint(lo, n - 1), rng.randint(lo, n - 1)
             if (a, b) not in seen:
                 seen.add((a, b))
                 F["pairs"].append([a, b, rng.randint(-90, 90)])
+        if rng.random() < 0.3:
+            for a in range(lo, n):     # every glyph is a left glyph: a run in the coverage of the subset
+                if (a, (a + 1) % n) not in seen:
+                    seen.add((a, (a + 1) % n))
+                    F["pairs"].append([a, (a + 1) % n, 40 + a])
+        if F["pairs"] and rng.random() < 0.5:     # second subtable: some of the same pairs, other values
+            seen2 = set()
+            for e in rng.sample(F["pairs"], rng.randint(1, len(F["pairs"]))):
+                seen2.add((e[0], e[1]))
+                F["pairs2"].append([e[0], e[1], e[2] + 7])
+            for _ in range(rng.randint(0, 3)):
+                a, b = rng.randint(lo, n - 1), rng.randint(lo, n - 1)
+                if (a, b) not in seen2:
+                    seen2.add((a, b))
+                    F["pairs2"].append([a, b, rng.randint(-90, 90)])
     return F
 
 
@@ -222,7 +250,8 @@ def _small_lists(rng, count):
              "cid": [(-1 if kind != "cid" else (0 if i == 0 else 2 * i + 3)) for i in g],
              "fd": [(-1 if kind == "ttf" else (i % 3 if kind == "cid" else 0)) for i in g],
              "comp": [[] for _ in g], "cmapcfg": "none", "cmap": [], "hasenc": False, "enc": [],
-             "gsub": "none", "ligs": [], "subs": [], "gpos": False, "pairs": []}
+             "gsub": "none", "ligs": [], "ligsplit": 0, "subs": [], "subs2": [],
+             "gpos": False, "pairs": [], "pairs2": []}
         if kind == "ttf" and rng.random() < 0.6:       # one or two composites (extras behind the list)
             a = rng.randint(1, n - 1)
             F["comp"][a] = [rng.choice([x for x in g if x != a])]
@@ -234,6 +263,66 @@ def _small_lists(rng, count):
         k = rng.randint(1, n - 1)
         res.append({"f": F, "list": [0] + rng.sample(range(1, n), k)})
     return res
+
+
+# ----------------------------------------------------------------------------- size-boundary sweeps
+def _plain(kind, n, dense=False):
+    g = list(range(n))
+    F = {"kind": kind, "n": n, "out": g[:], "w": [300 + 10 * i for i in g],
+         "name": [(-1 if kind == "cid" else i) for i in g],
+         "cid": [(-1 if kind != "cid" else (0 if i == 0 else 2 * i + 3)) for i in g],
+         "fd": [(-1 if kind == "ttf" else (i % 3 if kind == "cid" else 0)) for i in g],
+         "comp": [[] for _ in g], "cmapcfg": "4", "cmap": [[65 + i, i] for i in g[1:]], "hasenc": False, "enc": [],
+         "gsub": "none", "ligs": [], "ligsplit": 0, "subs": [], "subs2": [],
+         "gpos": False, "pairs": [], "pairs2": []}
+    if dense:
+        F["gsub"], F["gpos"] = "l", True
+        F["ligs"] = [[1, 2, 3]]
+        F["pairs"] = [[a, (a + 1) % n, 40 + a] for a in g]
+    return F
+
+
+def _sweep_cases(thorough):
+    """Cases whose concrete realisation is padded so that the tables of the *written subset* pass
+    through the size boundaries of the formats, one unit at a time: the String INDEX (copyright
+    notice, glyph names) and the CharStrings INDEX (glyph programs) of CFF subsets through
+    250..260 bytes; the glyf table of TrueType subsets through 0xFFFF/0x10000 and 0x20000 (short and
+    long loca).  The harness measures the written files itself and reports the sizes it saw."""
+    cases = []
+    cff = _plain("cff", 7, dense=True)
+    cid = _plain("cid", 6)
+    for F, lst, g in ((cff, [0, 5, 2, 1], 2), (cid, [0, 4, 1], 4)):
+        for p in range(0, 300):
+            cases.append({"f": F, "list": lst, "pad": {"copyright": p}})
+        for p in range(0, 330):
+            cases.append({"f": F, "list": lst, "pad": {"cs": [[g, p]]}})
+        for p in range(0, 330, 3):
+            cases.append({"f": F, "list": lst, "pad": {"cs": [[g, p], [lst[1], 150 - p // 3]]}})
+    for p in range(0, 300):
+        cases.append({"f": cff, "list": [0, 5, 2, 1], "pad": {"name": [[5, p // 2], [3, 40], [1, p - p // 2]]}})
+    ttf = _plain("ttf", 7)
+    ttf["comp"][6] = [3, 1]
+    ttf["comp"][5] = [6]
+    for lst in ([0, 5, 2, 4], [0, 4, 6, 2, 1]):
+        for T in list(range(0xFFF8, 0x10009, 2)) + list(range(0x1FFF8, 0x20009, 2)):
+            cases.append({"f": ttf, "list": lst, "pad": {"glyftotal": T}})
+    if thorough:
+        # the two-byte boundary of the CharStrings INDEX: two large glyph programs
+        for p in range(0, 160):
+            cases.append({"f": cid, "list": [0, 4, 1, 2], "pad": {"cs": [[4, 31280 + p], [1, 32760], [2, 30]]}})
+    return cases
+
+
+REQUIRED_SIZES = {"string": [254, 255, 256, 257], "charstrings": [254, 255, 256, 257],
+                  "glyf": [0xFFFE, 0x10000, 0x10002, 0x1FFFE, 0x20000, 0x20002]}
+
+
+def _sweeps(ctx, binp, state):
+    cases = _sweep_cases(not ctx.quick())
+    with state["lock"]:
+        state["nontrivial"] += len(cases)
+        ctx.sample({"sweep_case": {"list": cases[0]["list"], "pad": cases[400]["pad"], "kind": cases[0]["f"]["kind"]}}, limit=6)
+    _run_cases(ctx, binp, cases, "size-boundary sweeps", state)
 
 
 # ----------------------------------------------------------------------------- judging
@@ -271,7 +360,7 @@ def _account(ctx, res, ncases, label="SubsetTrace (trace validation)", traces=Tr
 
 def _run_cases(ctx, binp, cases, label, state):
     """cases: list of {"f", "list"}; records them with the real code and has TLC judge the events."""
-    cases.sort(key=lambda c: (json.dumps(c["f"], sort_keys=True), c["list"]))
+    cases.sort(key=lambda c: (json.dumps(c["f"], sort_keys=True), c["list"], json.dumps(c.get("pad"), sort_keys=True)))
     d = ctx.subdir("run")
     chunk = 6000
     with state["lock"]:
@@ -299,6 +388,9 @@ def _run_cases(ctx, binp, cases, label, state):
     with state["lock"]:
         for part, (info, res, failed) in zip(parts, results):
             ctx.cov["evaluations"] += info["events"]
+            for kind, hist in (info.get("sizes") or {}).items():
+                for size in hist:
+                    state["sizes"].setdefault(kind, set()).add(int(size))
             _account(ctx, res, len(part))
             byid = {c["id"]: c for c in part}
             for cid, fs in failed.items():
@@ -308,7 +400,10 @@ def _run_cases(ctx, binp, cases, label, state):
                     key = (ev, clause)
                     size = (c["f"]["n"], len(fs), len(c["list"]), cid)
                     if key not in state["witness"] or size < state["witness"][key][0]:
-                        state["witness"][key] = (size, {"f": c["f"], "list": c["list"]})
+                        w = {"f": c["f"], "list": c["list"]}
+                        if c.get("pad"):
+                            w["pad"] = c["pad"]
+                        state["witness"][key] = (size, w)
                     state["count"][key] = state["count"].get(key, 0) + 1
         state["total"] += len(cases)
     ctx.log("%s: %d cases judged, %d with violated clauses" % (label, len(cases), nfail))
@@ -371,6 +466,8 @@ def _replay_cases(ctx, wanted, tries=6):
         with open(allp, "w") as fo:
             for i in todo:
                 c = {"id": i, "f": wanted[i][1]["f"], "list": wanted[i][1]["list"]}
+                if wanted[i][1].get("pad"):
+                    c["pad"] = wanted[i][1]["pad"]
                 cp = os.path.join(d, "case%d.json" % i)
                 json.dump(c, open(cp, "w"))
                 tp = os.path.join(d, "trace%d.ndjson" % i)
@@ -401,6 +498,8 @@ def _describe(case, ev, clause, events):
                               "glyphs(w,comps)": [[g["w"], g["comps"]] for g in p["glyphs"]],
                               "cmaps": p["cmaps"], "enc": p["enc"], "ligs": p["ligs"], "subs": p["subs"],
                               "pairs": p["pairs"]})[:700]
+    if case.get("pad"):
+        small["concrete padding"] = case["pad"]
     where = {"subset": "(*sfnt.Font).Subset", "osubset": "(*cff.Outlines).Subset", "reread": "Write+Read of the subset"}[ev]
     return ("%s: %s [clause %s of spec/Subset.tla]. font %s, glyph list %s (glyph g has width %s); observed %s" % (
         where, CLAUSE_TEXT.get(clause, clause), clause, json.dumps(small), case["list"],
@@ -428,9 +527,10 @@ def run(ctx):
             return orig_subdir(name)
     ctx.subdir = locked_subdir
     state = {"next_id": 0, "witness": {}, "count": {}, "lock": lock, "total": 0, "nontrivial": 0,
-             "par": 4, "tlc_workers": max(2, ctx.workers // 2)}
+             "par": 4, "tlc_workers": max(2, ctx.workers // 2), "sizes": {}}
     jobs = [(lambda n=name, e=expr: _family(ctx, binp, n, e, state)) for name, expr in fams]
     jobs.insert(1, lambda: _random(ctx, binp, state))
+    jobs.insert(1, lambda: _sweeps(ctx, binp, state))
     try:
         with ThreadPoolExecutor(max_workers=2) as ex:     # two families at a time
             futs = [ex.submit(j) for j in jobs]
@@ -447,9 +547,10 @@ def run(ctx):
                        "the identity list 0..n-1; evaluations = recorded events (subset / outlines subset / reread / "
                        "builder self-check) judged by SubsetTrace.tla; %d cases in total" % total_cases)
 
+    ctx.cov["bounds"]["written_subset_sizes_seen"] = {k: sorted(v) for k, v in state["sizes"].items()}
+
     # report: one reproduced witness per violated clause
-    wanted = [(key, {"f": state["witness"][key][1]["f"], "list": state["witness"][key][1]["list"]})
-              for key in sorted(state["witness"])]
+    wanted = [(key, state["witness"][key][1]) for key in sorted(state["witness"])]
     seen, events = _replay_cases(ctx, wanted)
     unreproduced = []
     for i, (key, case) in enumerate(wanted):
@@ -465,6 +566,17 @@ def run(ctx):
                       case={"case": case, "event": ev, "clause": clause})
     if unreproduced and not ctx.violations and not ctx.known_hits:
         raise vlib.Infra("violated clauses did not reproduce in isolation: %s" % unreproduced)
+    # the sweeps must really have reached the boundaries (measured on the written files by the
+    # harness' own table walker); a miswritten table is not measurable, so only when nothing failed
+    if not ctx.violations and not ctx.known_hits:
+        required = dict(REQUIRED_SIZES)
+        if not ctx.quick():
+            required["charstrings"] = required["charstrings"] + [65534, 65535, 65536, 65537]
+        missing = {k: [x for x in v if x not in state["sizes"].get(k, ())] for k, v in required.items()}
+        missing = {k: v for k, v in missing.items() if v}
+        if missing:
+            raise vlib.Infra("the size-boundary sweeps did not produce subsets of these sizes: %s (seen: %s)" % (
+                missing, {k: sorted(v) for k, v in state["sizes"].items()}))
 
 
 def replay(ctx, obj):
